@@ -250,9 +250,10 @@ class TelegramQueue:
         """Run registered callbacks. Don't propagate exceptions."""
         # iterate over a copy - a callback may (un)register callbacks
         for callback in tuple(self.telegram_received_cbs):
-            if not callback.is_within_filter(telegram):
-                continue
             try:
+                # an address filter may raise too (pattern not fitting the address format)
+                if not callback.is_within_filter(telegram):
+                    continue
                 callback.callback(telegram)
             except Exception:  # pylint: disable=broad-except
                 logger.exception(
